@@ -82,9 +82,15 @@ var c21Dims = []struct {
 		"line_tab", "line_vt", "line_ff", "line_ctl", "line_empty", "hash_empty", "ver_empty", "bang_empty"}},
 	{"case", []string{"lower", "upper", "mixed"}},
 	{"gap", []string{"space", "nl", "tab", "comment", "comment_sp", "hint_tight", "hint_sp", "vt", "comment_slash", "comment_star"}},
-	{"wrap", []string{"none", "bang", "ver"}},
+	{"wrap", []string{"none", "bang", "ver", "ver6"}},
 	{"trail", []string{"none", "block"}},
-	{"channel", []string{"query", "multi_after", "multi_before", "prepare", "prepare_param", "nosplit_after"}},
+	{"channel", []string{"query", "multi_after", "multi_before", "prepare", "prepare_param", "nosplit_after",
+		// unsplit packets whose statement separator sits INSIDE a version comment after a control
+		// (MySQL executes the comment's content, so the packet is `control ; statement`):
+		// blanks/tabs/newline between the version number and the ';', comment closed after the
+		// statement or right after the ';'; sent as COM_QUERY on the namespace without
+		// support_multi_query and as COM_STMT_PREPARE/EXECUTE
+		"nosplit_vc1", "nosplit_vc2", "nosplit_vc3", "nosplit_vctab", "nosplit_vcnl", "nosplit_vc_close", "prepare_vc2", "prepare_vc_close"}},
 	{"user", []string{"ro", "ro2"}},
 	{"tx", []string{"none", "begin", "ac0"}},
 }
@@ -110,6 +116,38 @@ func c21DimVals(name string) []string {
 }
 
 const c21Control = "select 7"
+
+// c21VCOpen: text between the control and the ';' for the version-comment channels; the
+// statement follows the ';' directly (no blank)
+var c21VCOpen = map[string]string{
+	"nosplit_vc1": " /*!40101 ", "nosplit_vc2": " /*!40101  ", "nosplit_vc3": " /*!40101   ", "nosplit_vctab": " /*!40101\t ", "nosplit_vcnl": " /*!40101\n",
+	"nosplit_vc_close": " /*!40101 ", "prepare_vc2": " /*!40101  ", "prepare_vc_close": " /*!40101 ",
+}
+
+// vcText builds the unsplit packet of a version-comment channel.
+func (c c21Case) vcText() string {
+	ch := c.get("channel")
+	if strings.HasSuffix(ch, "_close") {
+		return c21Control + c21VCOpen[ch] + "; */" + c.text(false)
+	}
+	return c21Control + c21VCOpen[ch] + ";" + c.text(false) + " */"
+}
+
+// packet is the text that goes on the wire for the statement under test (without the
+// control piece of the multi-statement channels).
+func (c c21Case) packet() string {
+	if c21IsVC(c.get("channel")) {
+		return c.vcText()
+	}
+	return c.text(c.get("channel") == "prepare_param")
+}
+
+// c21ObserveOnly: channels executed and counted but not reported. Empty: the two defects
+// that once needed it (`*/` opening a piece, newline behind the version number) were repaired
+// in /repo (fix commit 3a04651), so every channel is enforced by the normal oracle.
+var c21ObserveOnly = map[string]bool{}
+
+func c21IsVC(ch string) bool { _, ok := c21VCOpen[ch]; return ok }
 
 type c21Case struct {
 	Kind string            `json:"kind"`
@@ -181,6 +219,22 @@ func (c c21Case) valid() bool {
 	if c.get("channel") == "prepare_param" && k.PRest == "" {
 		return false
 	}
+	if ch := c.get("channel"); c21IsVC(ch) && !strings.HasSuffix(ch, "_close") {
+		// the statement sits inside the version comment: no comment may be nested in it
+		if c.get("wrap") != "none" || c.get("trail") != "none" {
+			return false
+		}
+		switch c.get("lead") {
+		case "none", "ws":
+		default:
+			return false
+		}
+		switch c.get("gap") {
+		case "space", "nl", "tab", "vt":
+		default:
+			return false
+		}
+	}
 	return true
 }
 
@@ -198,6 +252,8 @@ func (c c21Case) text(param bool) string {
 		core = "/*! " + core + " */"
 	case "ver":
 		core = "/*!40101 " + core + " */"
+	case "ver6":
+		core = "/*!080000 " + core + " */" // six-digit version number (MySQL 8: Mmmmrr)
 	}
 	t := c21LeadText[c.get("lead")] + core
 	if c.get("trail") == "block" {
@@ -273,7 +329,7 @@ func (h *c21Harness) close() {
 // run executes the case as `user` (the case's own user unless overridden).
 func (h *c21Harness) run(c c21Case, user string) c21Result {
 	s := h.sess[user]
-	if c.get("channel") == "nosplit_after" {
+	if ch := c.get("channel"); ch == "nosplit_after" || c21IsVC(ch) {
 		// namespace without support_multi_query: the packet is not split, it is ONE statement
 		// text for the proxy although it holds a modifying statement after the control
 		if ns, ok := h.sess["n_"+user]; ok {
@@ -313,6 +369,16 @@ func (h *c21Harness) run(c c21Case, user string) c21Result {
 			if !res.ErrReply {
 				allowedGets = 1
 			}
+		}
+	case "nosplit_vc1", "nosplit_vc2", "nosplit_vc3", "nosplit_vctab", "nosplit_vcnl", "nosplit_vc_close":
+		rs, obs, err = s.Query(c.vcText())
+		if err == nil && len(rs) > 0 {
+			res.ErrReply = rs[len(rs)-1].Err != nil
+		}
+	case "prepare_vc2", "prepare_vc_close":
+		rs, obs, err = s.PrepExec(c.vcText(), nil)
+		if err == nil && len(rs) > 0 {
+			res.ErrReply = rs[0].Err != nil
 		}
 	case "nosplit_after":
 		rs, obs, err = s.Query(c21Control + "; " + c.text(false))
@@ -404,7 +470,7 @@ func TestVerif_C21(t *testing.T) {
 		rec.Count("rig.commands", 1)
 		rec.Count("rig.events.get", int64(res.Gets))
 		describe := func(msg string) string {
-			return fmt.Sprintf("%s: user %s, channel %s, tx %s, statement %q -> replies [%s], backend gets %d on %v, execs %q", msg, c.get("user"), c.get("channel"), c.get("tx"), c.text(c.get("channel") == "prepare_param"), res.Replies, res.Gets, res.Roles, res.Execs)
+			return fmt.Sprintf("%s: user %s, channel %s, tx %s, statement %q -> replies [%s], backend gets %d on %v, execs %q", msg, c.get("user"), c.get("channel"), c.get("tx"), c.packet(), res.Replies, res.Gets, res.Roles, res.Execs)
 		}
 		switch {
 		case res.IOErr != "":
@@ -425,6 +491,10 @@ func TestVerif_C21(t *testing.T) {
 			} else {
 				rec.Count("controls.served", 1)
 			}
+		}
+		if v.Clause != "" && v.Clause != "io" && c21ObserveOnly[c.get("channel")] {
+			rec.Count("pending_fix."+c.get("channel")+"."+v.Clause, 1)
+			v = verdict{}
 		}
 		cache[c.key()] = v
 		return v
@@ -492,7 +562,7 @@ func TestVerif_C21(t *testing.T) {
 		}
 		min := shrink(c, v.Clause)
 		mv := eval(min)
-		min.Text = min.text(min.get("channel") == "prepare_param")
+		min.Text = min.packet()
 		rec.Violation(fmt.Sprintf("C21/%s/%s/%s", v.Clause, k.KW, min.decoKey()), mv.What, min)
 	}
 
@@ -510,7 +580,7 @@ func TestVerif_C21(t *testing.T) {
 				continue
 			}
 			for _, ch := range c21DimVals("channel") {
-				if ch == "nosplit_after" {
+				if ch == "nosplit_after" || c21IsVC(ch) {
 					continue // the flipped users live in the namespace with multi-statement support
 				}
 				base := c21Case{Kind: k.Name, D: map[string]string{}}.with("channel", ch)
@@ -853,6 +923,9 @@ func TestVerif_C21(t *testing.T) {
 			}
 			if c.get("tx") != "none" && !rnd.Chance(1, 3) {
 				c = c.with("tx", "none")
+			}
+			if !c.valid() && c21IsVC(c.get("channel")) {
+				c = c.with("lead", "none").with("gap", "space").with("wrap", "none").with("trail", "none")
 			}
 			if !c.valid() {
 				if c.get("channel") == "prepare_param" {
